@@ -3,6 +3,7 @@
   why a rank excludes a wait-for cycle.
 -/
 import Model.IR
+import Model.Lockset
 namespace Model
 namespace IR
 
@@ -19,6 +20,99 @@ def edges : Stmt → St → List (LockId × LockId)
  | .loop _ body, σ => edges body σ
  | .block _ body, σ => edges body σ
  | _, _ => []
+
+/-- every acquisition performed by any execution of an accepted body, while holding h, is an edge (h, m) of `edges` -/
+theorem edges_sound {s : Stmt} {σ σ' : St} {t : List TEv} {e : Exit} (h : ExecT s σ t σ' e) :
+    ∀ outs, check s σ = some outs → ∀ m H, TEv.acq m H ∈ t → ∀ x ∈ H, (x, m) ∈ edges s σ := by
+  induction h with
+  | skip σ => intro _ _ m H hm; simp at hm
+  | acc f w σ => intro _ _ m H hm; simp at hm
+  | lock m0 σ _ =>
+    intro _ _ m H hm x hx
+    simp only [List.mem_singleton, TEv.acq.injEq] at hm
+    obtain ⟨rfl, rfl⟩ := hm
+    simp only [edges, List.mem_map]
+    exact ⟨x, hx, rfl⟩
+  | unlock m0 σ _ => intro _ _ m H hm; simp at hm
+  | deferU m0 σ => intro _ _ m H hm; simp at hm
+  | brk l σ => intro _ _ m H hm; simp at hm
+  | cont l σ => intro _ _ m H hm; simp at hm
+  | ret σ => intro _ _ m H hm; simp at hm
+  | loopZero l body σ => intro _ _ m H hm; simp at hm
+  | seqN a b σ σ' σ'' t1 t2 e ha hb iha ihb =>
+    intro outs hc m H hm x hx
+    simp only [check] at hc
+    cases hca : check a σ with
+    | none => simp [hca] at hc
+    | some rs =>
+      simp only [hca] at hc
+      simp only [edges, hca, List.mem_append]
+      rcases List.mem_append.mp hm with hm | hm
+      · exact Or.inl (iha rs hca m H hm x hx)
+      · right
+        obtain ⟨σ1, e1, heq, hmem⟩ := check_sound a σ _ ha.toExec rs hca
+        cases heq
+        obtain ⟨l, hl, _⟩ := (bindN_sound rs (check b) outs hc).2 _ hmem rfl
+        simp only [List.mem_flatMap, List.mem_filter]
+        exact ⟨(σ', .normal), ⟨hmem, by simp⟩, ihb l hl m H hm x hx⟩
+  | seqE a b σ σ' t e hne ha iha =>
+    intro outs hc m H hm x hx
+    simp only [check] at hc
+    cases hca : check a σ with
+    | none => simp [hca] at hc
+    | some rs =>
+      simp only [edges, List.mem_append]
+      exact Or.inl (iha rs hca m H hm x hx)
+  | iteL a b σ σ' t e _ ih =>
+    intro outs hc m H hm x hx
+    simp only [check] at hc
+    cases hca : check a σ with
+    | none => simp [hca] at hc
+    | some xa =>
+      simp only [edges, List.mem_append]
+      exact Or.inl (ih xa hca m H hm x hx)
+  | iteR a b σ σ' t e _ ih =>
+    intro outs hc m H hm x hx
+    simp only [check] at hc
+    cases hca : check a σ with
+    | none => simp [hca] at hc
+    | some xa =>
+      cases hcb : check b σ with
+      | none => simp [hca, hcb] at hc
+      | some xb =>
+        simp only [edges, List.mem_append]
+        exact Or.inr (ih xb hcb m H hm x hx)
+  | loopIter l body σ σ' σ'' t1 t2 e e' hb hle hl ihb ihl =>
+    intro outs hc m H hm x hx
+    have hc0 := hc
+    simp only [check] at hc
+    cases hcb : check body σ with
+    | none => simp [hcb] at hc
+    | some rs =>
+      simp only [hcb] at hc
+      split at hc
+      · rename_i hall
+        obtain ⟨σ1, e1, heq, hmem⟩ := check_sound body σ _ hb.toExec rs hcb
+        cases heq
+        have := List.all_eq_true.mp hall _ hmem
+        simp [hle] at this
+        subst this
+        rcases List.mem_append.mp hm with hm | hm
+        · simpa [edges] using ihb rs hcb m H hm x hx
+        · exact ihl outs hc0 m H hm x hx
+      · simp at hc
+  | loopOut l body σ σ' t e e' _ hle ihb =>
+    intro outs hc m H hm x hx
+    simp only [check] at hc
+    cases hcb : check body σ with
+    | none => simp [hcb] at hc
+    | some rs => simpa [edges] using ihb rs hcb m H hm x hx
+  | block l body σ σ' t e _ ih =>
+    intro outs hc m H hm x hx
+    simp only [check] at hc
+    cases hcb : check body σ with
+    | none => simp [hcb] at hc
+    | some rs => simpa [edges] using ih rs hcb m H hm x hx
 
 def fnEdges (f : Fn) : List (LockId × LockId) := edges f.body { held := f.entry, deferred := [] }
 
